@@ -7,6 +7,7 @@ import (
 	"flag"
 	"fmt"
 	"os"
+	"sync"
 	"os/exec"
 	"path/filepath"
 	"sort"
@@ -315,6 +316,19 @@ func cmdCheck(mode string, args []string) {
 	}
 
 	if mode == "lock" {
+		// an obligation that discharged but slowly may only have been slowed down by its 47 neighbours (16 jobs x
+		// 3 solvers): measure it again with the machine to itself before leaving it out of the lock
+		var slow []*OblResult
+		for _, j := range jobs {
+			if j.verdict() == "discharged" && j.Res.Secs >= 5.0 {
+				slow = append(slow, j)
+			}
+		}
+		for _, j := range slow {
+			if res := r.solve(j.VC, j.Obl); res.Status == j.Res.Status && res.Secs < j.Res.Secs {
+				j.Res = res
+			}
+		}
 		writeLock(lockFile, unclFile, jobs, lemmaRes, unclaimed, knownOpen)
 		fmt.Printf("lock written: %s\n", lockFile)
 		for _, vc := range vcs {
@@ -870,15 +884,30 @@ type LemmaResult struct {
 
 // runLemmas: each file under theory/ is a self-contained SMT-LIB script whose (check-sat) must be unsat.
 func runLemmas(verif string, files []string, r *Runner) []LemmaResult {
-	var out []LemmaResult
+	var all []string
 	for _, f := range files {
 		matches, _ := filepath.Glob(filepath.Join(verif, "theory", f))
 		sort.Strings(matches)
-		for _, m := range matches {
+		all = append(all, matches...)
+	}
+	out := make([]LemmaResult, len(all))
+	sem := make(chan struct{}, 8)
+	var wg sync.WaitGroup
+	for i, m := range all {
+		wg.Add(1)
+		go func(i int, m string) {
+			defer wg.Done()
+			sem <- struct{}{}
+			defer func() { <-sem }()
 			name := strings.TrimSuffix(filepath.Base(m), ".smt2")
 			res := LemmaResult{Name: name, Status: "unknown"}
 			secs := int(r.timeout.Seconds())
-			for _, sp := range []solverSpec{solvers[1], solvers[0], solvers[2]} {
+			// native-string lemmas are cvc5's; lemmas over the abstract theory (declare-sort Str) are z3's
+			order := []solverSpec{solvers[1], solvers[0], solvers[2]}
+			if b, err := os.ReadFile(m); err == nil && strings.Contains(string(b), "(declare-sort Str 0)") {
+				order = []solverSpec{solvers[0], solvers[2], solvers[1]}
+			}
+			for _, sp := range order {
 				st, o, d := runSolverFile(sp, m, secs)
 				res.Secs += d
 				if st == "unsat" || st == "sat" {
@@ -887,8 +916,9 @@ func runLemmas(verif string, files []string, r *Runner) []LemmaResult {
 				}
 				res.Output = o
 			}
-			out = append(out, res)
-		}
+			out[i] = res
+		}(i, m)
 	}
+	wg.Wait()
 	return out
 }
